@@ -469,6 +469,16 @@ pub fn gen_c15(rng: &mut Rng, _tier: Tier) -> Result<Value, serde_json::Error> {
         d = gen::narrow_selection(rng, &d, drop_pm);
         selections.push(d.clone());
     }
+    // some chains narrow all the way down to the empty selection and then take one more step
+    if rng.chance(1, 4) {
+        let n = selections.len();
+        if n >= 2 {
+            selections[n - 1] = Map::new();
+            if n >= 3 && rng.bool() {
+                selections[n - 2] = Map::new();
+            }
+        }
+    }
     let mut fmts = vec![cred.fmt];
     for _ in 1..k {
         let last = *fmts.last().unwrap();
@@ -504,23 +514,31 @@ pub fn execute_c15(scn_v: &Value) -> RunReport {
     // relay chain
     let mut prev: Message = orig.clone();
     let mut prev_fmt = c.fmt;
+    // what the previous hop returned, byte for byte: handed on verbatim when the next hop uses the
+    // same format (the gateway only re-serialises when it has to transcode)
+    let mut prev_raw: String = sdjwt.clone();
     for (j, sel) in scn.selections.iter().enumerate() {
         let fmt_j = scn.fmts.get(j).copied().unwrap_or(c.fmt);
         // the gateway hands the previous hop's message over in this hop's format
-        let Some(input) = prev.serialize(fmt_j) else {
-            cx.rep.count("skipped_not_transcodable");
-            break;
-        };
-        if fmt_j != prev_fmt {
+        let input = if fmt_j == prev_fmt {
+            prev_raw.clone()
+        } else {
             cx.rep.count("fault.transcode");
-        }
+            match prev.serialize(fmt_j) {
+                Some(i) => i,
+                None => {
+                    cx.rep.count("skipped_not_transcodable");
+                    break;
+                }
+            }
+        };
         let relay = match w.holder_new(n_hr, &input, fmt_j) {
             Out::Ok(h) => w.present(n_hr, &h, sel, None),
             Out::Err { variant, msg } => Out::Err { variant, msg },
             Out::Panic(p) => Out::Panic(p),
         };
         // direct path: fresh holder over the originally issued SD-JWT, same selection, same format
-        let direct = match orig.serialize(fmt_j) {
+        let direct = match if fmt_j == c.fmt { Some(sdjwt.clone()) } else { orig.serialize(fmt_j) } {
             Some(o) => match w.holder_new(n_h0, &o, fmt_j) {
                 Out::Ok(h) => w.present(n_h0, &h, sel, None),
                 Out::Err { variant, msg } => Out::Err { variant, msg },
@@ -544,7 +562,8 @@ pub fn execute_c15(scn_v: &Value) -> RunReport {
                     viol = Some(("same-disclosure-set".into(), format!("c15:{}", class), json!({"hop": j, "relay": r.disclosures, "direct": d.disclosures})));
                 } else {
                     // both verified by the real verifier
-                    let (wr, wd) = (r.serialize(fmt_j), d.serialize(fmt_j));
+                    // the holders' outputs verbatim
+                    let (wr, wd) = (relay.ok().cloned(), direct.ok().cloned());
                     if let (Some(wr), Some(wd)) = (wr, wd) {
                         let vr = w.verify(n_v, &wr, fmt_j, None, &Resolver::Directory);
                         let vd = w.verify(n_v, &wd, fmt_j, None, &Resolver::Directory);
@@ -598,12 +617,13 @@ pub fn execute_c15(scn_v: &Value) -> RunReport {
             }
             break;
         }
-        match mr {
-            Some(r) => {
+        match (mr, relay.ok()) {
+            (Some(r), Some(raw)) => {
                 prev = r;
+                prev_raw = raw.clone();
                 prev_fmt = fmt_j;
             }
-            None => break,
+            _ => break,
         }
     }
     let _ = (Arc::new(Mutex::new(0u8)), std::marker::PhantomData::<(SDJWTHolder, SDJWTIssuer)>);
